@@ -11,6 +11,9 @@ import (
 
 func (ex *Exec) lenOf(v Val) *Term {
 	ts := ex.ts
+	if iv, ok := v.(IfaceV); ok && iv.Dyn != nil {
+		v = iv.Dyn
+	}
 	switch x := v.(type) {
 	case SliceV:
 		return x.Len
